@@ -21,6 +21,7 @@ from ..extract import Extractor, Closure, Opaque, PathRaises, ReturnValue, _dott
 from ..spacing import SpacingEx, Piecewise, PiecewiseMixin, constraint_value
 from ..flow import MustFlow
 from ..model import Program, walk_own, is_self_attr
+from ..model import canon as K
 from ..options import Schemas
 from ..report import AnalysisError
 
@@ -392,8 +393,11 @@ def r5(prog, rep):
         raise AnalysisError("_checkMonotonic not found")
     src = " ".join(mod.text(g.node).split())
     rng = "numpy.arange( -self.extend_lower, 2 * self.ny_noguards + self.extend_upper + 1, dtype=float, )" in src or "numpy.arange(-self.extend_lower, 2 * self.ny_noguards + self.extend_upper + 1, dtype=float)" in src
-    ifs = [n for n in walk_own(g.node) if isinstance(n, ast.If) and any(isinstance(x, ast.Raise) for x in ast.walk(n))]
-    cond = bool(ifs) and " ".join(mod.text(ifs[0].test).split()) == "numpy.any(scheck[1:] < scheck[:-1])"
+    # every raise of the guard stands under exactly "some consecutive value decreases"
+    # (guard clause or nested if, the comparison possibly held in a temporary)
+    from ..stores import effects
+    raises = [e for e in effects(g.node) if e.kind == "raise"]
+    cond = bool(raises) and all([mod.code(c) for c in e.conds if not isinstance(c, str)] == [K("numpy.any(scheck[1:] < scheck[:-1])")] for e in raises)
     rep.ob("R5", "guard evaluates the function on every used index (-extend_lower .. 2*ny+extend_upper) and raises on any decrease", rng and cond, g.site(), "", key="guard/def")
 
 
